@@ -247,6 +247,10 @@ func runC05(f *hx.Flags, w *world) int {
 		// itself: native block), next to integer and string traits
 		defs = append(defs, g.shapedDef(traitShape{opts: optSets[(3*b+1)%len(optSets)], fixedCols: []string{"int", "Str"}, allParsable: true,
 			selfCol: true, nTypes: 1, nConsts: 4 + b, rowless: b%2 == 1}))
+		// trait types with unmarshalers of their own, per codec: inner enums generated under every
+		// subset of -json / -yaml / -text, hand-written types with one unmarshaler, as the only member of
+		// their integer block and next to another one, under the outer enum's codec subsets
+		defs = append(defs, g.selfCodecDefs(b, r.N(nBatches))...)
 		// 64-bit integer traits (untyped int, uint64, the named int64 type time.Duration) with constants
 		// of magnitude >= 2^53 that float64 holds exactly: the constants must decode, their neighbours
 		// +-1, +-2, ... and the float spellings <c>.0 / <c>e0 must be rejected
@@ -321,6 +325,9 @@ func runC12(f *hx.Flags, w *world) int {
 		defs = append(defs,
 			g.shapedDef(traitShape{opts: opt(5), fixedCols: []string{"int", "string"}, allParsable: true, selfCol: true, nTypes: 1, nConsts: 4, dups: b%2 == 1}),
 			g.shapedDef(traitShape{opts: opt(6), fixedCols: []string{"uint8"}, allParsable: b%2 == 0, selfCol: true, nTypes: 2, sharedNames: true, nConsts: 3}))
+		// (e') the inner type under every subset of its own codec switches / hand-written with one
+		// unmarshaler, alone in its integer block and next to another integer trait
+		defs = append(defs, g.selfCodecDefs(b, r.N(nBatches))...)
 		// (f) ONE invocation for several types that share their parsable trait names
 		defs = append(defs, g.shapedDef(traitShape{opts: opt(7), fixedCols: []string{"int", "Str", "uint8"}, allParsable: true, nTypes: 2, sharedNames: true, nConsts: 3 + b}))
 		// (g) parsable traits of different types with the same literal text on different members
